@@ -346,6 +346,13 @@ def topOf (top : Option (Nat × Bool)) (rs : List Resp) : Option (List Resp) :=
     | none => none
     | some (q, _) => some (q.elements.map (·.2))
 
+/-- `limitPlan` with offset 0 on the final (liaison / standalone) plan. The limit sent to the data nodes of an
+    aggregation is unbounded (`PushDownMaxSize(math.MaxInt)` → `distributedPlan.Limit`), so node answers are complete. -/
+def limitOf (limit : Option Nat) (rs : List Resp) : List Resp :=
+  match limit with
+  | none => rs
+  | some n => rs.take n
+
 structure Scenario where
   fn : Fn
   mask : List Bool
@@ -366,5 +373,90 @@ def Scenario.answers (path : Path) (mode : KeyMode) (sc : Scenario) : List (List
 /-- map on every node, de-duplicate and reduce on the liaison, then top. -/
 def Scenario.distributed (path : Path) (mode : KeyMode) (sc : Scenario) : Option (List Resp) :=
   topOf sc.top (liaison mode sc.fn sc.mask (sc.answers path mode))
+
+/-! ### TopN post-processor (`banyand/measure/topn_post_processor.go`, reducer of `banyand/dquery/topn.go`)
+
+Per timestamp a bounded queue of `(value, (entity key, version))` plus the `items` map (here: lookup by key in
+the same list). `flow.DedupPriorityQueue` + `container/heap` are abstracted to a priority queue whose root is the
+extreme element *by the value registered at the last `Push`/`Fix`*; with the `heap.Fix` after an in-place update
+the registered value is the value, and the queue is `popRoot` on the values (ties: not modelled). -/
+
+abbrev TnEntry := Int × (String × Int)
+
+/-- `topNPostProcessor.Put` for one timeline. `asc` = `sort != SORT_DESC`. The first `Put` of a timeline pushes
+    unconditionally; an entity already in `items` is updated in place when the version is not older (and the queue
+    re-ordered); a new entity enters while the queue is short, or replaces the lowest when strictly better. -/
+def tnPut (n : Nat) (asc : Bool) (tl : List TnEntry) (k : String) (v ver : Int) : List TnEntry :=
+  match tl.find? (fun e => e.2.1 == k) with
+  | some e =>
+    if ver ≥ e.2.2 then tl.map (fun x => if x.2.1 == k then (v, (k, ver)) else x) else tl
+  | none =>
+    if tl.isEmpty || tl.length < n then tl ++ [(v, (k, ver))]
+    else
+      match popRoot asc tl with
+      | none => tl
+      | some (low, rest) =>
+        if (if asc then low.1 > v else low.1 < v) then rest ++ [(v, (k, ver))] else tl
+
+/-- the pinned-minus-`Fix` variant (seeded change n1): entries remember the value the heap was last ordered by. -/
+abbrev TnEntryR := Int × ((String × Int) × Int)     -- (registered value, ((key, version), actual value))
+
+def tnPutNoFix (n : Nat) (asc : Bool) (tl : List TnEntryR) (k : String) (v ver : Int) : List TnEntryR :=
+  match tl.find? (fun e => e.2.1.1 == k) with
+  | some e =>
+    if ver ≥ e.2.1.2 then tl.map (fun x => if x.2.1.1 == k then (x.1, ((k, ver), v)) else x) else tl
+  | none =>
+    if tl.isEmpty || tl.length < n then tl ++ [(v, ((k, ver), v))]
+    else
+      match popRoot asc tl with
+      | none => tl
+      | some (low, rest) =>
+        if (if asc then low.2.2 > v else low.2.2 < v) then rest ++ [(v, ((k, ver), v))] else tl
+
+/-- one arriving item: timestamp (ms), entity key, value, version. -/
+structure TnItem where
+  ts : Nat
+  key : String
+  val : Int
+  ver : Int
+  deriving DecidableEq, Repr
+
+/-- the `timelines` map as an association list in first-seen order. -/
+def tnPutAll (n : Nat) (asc : Bool) (tls : List (Nat × List TnEntry)) (it : TnItem) : List (Nat × List TnEntry) :=
+  match tls with
+  | [] => [(it.ts, tnPut n asc [] it.key it.val it.ver)]
+  | (t, tl) :: rest =>
+    if t = it.ts then (t, tnPut n asc tl it.key it.val it.ver) :: rest
+    else (t, tl) :: tnPutAll n asc rest it
+
+def tnRun (n : Nat) (asc : Bool) (items : List TnItem) : List (Nat × List TnEntry) :=
+  items.foldl (tnPutAll n asc) []
+
+/-- `valWithoutAggregation`: every timeline best-first (`queue.Values()`), timelines by timestamp. -/
+def insertTs (x : Nat × List TnEntry) : List (Nat × List TnEntry) → List (Nat × List TnEntry)
+  | [] => [x]
+  | y :: ys => if x.1 < y.1 then x :: y :: ys else y :: insertTs x ys
+
+def tnVal (asc : Bool) (tls : List (Nat × List TnEntry)) : List (Nat × List TnEntry) :=
+  (tls.foldr insertTs []).map fun (t, tl) => (t, sortElems asc tl)
+
+/-- `Flush` with an aggregation function, timelines and their items visited in the order given (Go visits two
+    maps in unspecified order; the result depends on it once more than `n` entities compete — finding F43). -/
+def tnFlushStep (fn : Fn) (n : Nat) (asc : Bool) (st : List (String × MapAcc)) (e : TnEntry) : List (String × MapAcc) :=
+  let v : I64 := BitVec.ofInt 64 e.1
+  match st.find? (fun x => x.1 == e.2.1) with
+  | some _ => st.map fun x => if x.1 == e.2.1 then (x.1, x.2.feed v) else x
+  | none =>
+    let item := (e.2.1, (newMap fn).feed v)
+    if st.length < n then st ++ [item]
+    else
+      match popRoot asc (st.map fun x => (x.2.val.toInt, x)) with
+      | none => st
+      | some (low, rest) =>
+        if (if asc then low.1 > item.2.val.toInt else low.1 < item.2.val.toInt) then rest.map (·.2) ++ [item] else st
+
+def tnFlush (fn : Fn) (n : Nat) (asc : Bool) (tls : List (Nat × List TnEntry)) : List (Int × String) :=
+  let st := (tls.flatMap (·.2)).foldl (tnFlushStep fn n asc) []
+  (sortElems asc (st.map fun x => (x.2.val.toInt, x.1)))
 
 end Banyan.C10
